@@ -129,6 +129,10 @@ def cases(draw, targets=("block", "block", "mvn", "phylo"), max_L=30, phylo_max_
     eps = draw(_logu_grid(eps_lo, 0.5))
     L = draw(st.sampled_from(_spread(range(1, (phylo_max_L if target == "phylo" else max_L) + 1))))
     mass_kind = draw(st.sampled_from(list(masses)))
+    if operator:
+        c["decisions"] = draw(st.sampled_from([["accept"], ["reject"], ["accept", "reject"], ["reject", "accept"], ["accept", "accept"], ["reject", "reject"]]))
+        c["mass_route"] = draw(st.sampled_from(["spec", "assigned"]))
+        c["torch_seed"] = draw(st.integers(0, 2**31 - 1))
     if target == "phylo":
         model = draw(st.sampled_from(sorted(PHYLO_MODELS)))
         sizes = list(PHYLO_MODELS[model])
@@ -164,11 +168,7 @@ def cases(draw, targets=("block", "block", "mvn", "phylo"), max_L=30, phylo_max_
     c["eps"] = eps
     c["L"] = L
     c["mass"] = _mass(draw, d, mass_kind)
-    if operator:
-        c["torch_seed"] = draw(st.integers(0, 2**31 - 1))
-        c["decisions"] = draw(st.lists(st.sampled_from(["accept", "reject"]), min_size=1, max_size=2))
-        c["mass_route"] = draw(st.sampled_from(["spec", "spec", "assigned"]))
-    else:
+    if not operator:
         c["p0"] = [draw(fl(-3.0, 3.0)) for _ in range(d)]
     return c
 
